@@ -64,6 +64,7 @@ def impl_view(work, W, k, colocate, ranks):
     """Construct one KAISAAssignment per local rank; return everything it answers."""
     from kfac.assignment import KAISAAssignment
     views = {}
+    objs = {}
     for r in ranks:
         created = []
 
@@ -71,8 +72,15 @@ def impl_view(work, W, k, colocate, ranks):
             t = tuple(sorted(rs))
             created.append(t)
             return t
-        a = KAISAAssignment(work, local_rank=r, world_size=W, grad_worker_fraction=k / W,
-                            group_func=gf, colocate_factors=colocate)
+        objs[r] = (KAISAAssignment(work, local_rank=r, world_size=W, grad_worker_fraction=k / W,
+                                   group_func=gf, colocate_factors=colocate), created)
+    if work:
+        names = list(work)
+        work2 = {n: dict(work[names[len(names) - 1 - i]]) if set(work[n]) == set(work[names[len(names) - 1 - i]]) else dict(work[n]) for i, n in enumerate(names)}
+        k2 = next((d for d in range(1, W + 1) if W % d == 0 and d != k), k)
+        KAISAAssignment(work2, local_rank=ranks[-1], world_size=W, grad_worker_fraction=k2 / W, group_func=lambda rs: tuple(sorted(rs)), colocate_factors=True)
+    for r in ranks:
+        a, created = objs[r]
         layers = list(a.get_layers())
         views[r] = {
             'grad_workers': a.grad_workers,
